@@ -13,7 +13,19 @@ pub fn c08(ctx: &Ctx, subj: &dyn DynSubject, ty: &Ty, rep: &mut Report) {
     if !hook {
         rep.notes.push("built without the epserde_verif hook: region checks skipped".into());
     }
-    crate::runner::run_cases(ctx, subj, rep, strat, ctx.cases, &|case, log| {
+    // enumerated payloads of more than a mebibyte, one of them all zeros and last in the stream (what a store that
+    // turns runs of zeros into holes would have to get right)
+    let mut pre: Vec<Val> = sweep_vals(ctx, ty).into_iter().filter(|v| matches!(v, Val::Rec(f) if matches!(f.first(), Some(Val::Seq(x)) if x.len() > 100_000 && matches!(x.first(), Some(Val::P(_)))))).collect();
+    if let Some(Val::Rec(f)) = pre.first().cloned() {
+        if let Some(Val::Seq(items)) = f.first() {
+            let zero = match &items[0] { Val::P(b) => Val::P(vec![0; b.len()]), x => x.clone() };
+            let mut g = f.clone();
+            g[0] = Val::Seq(vec![zero; items.len()]);
+            pre.push(Val::Rec(g));
+        }
+    }
+    let pre: Vec<Val> = pre.into_iter().map(|v| Val::Rec(vec![v, Val::P((0..16u32).map(|i| (i * 53 + 7) as u8).collect())])).collect();
+    crate::runner::run_cases_pre(ctx, subj, rep, &pre, strat, ctx.cases, &|case, log| {
         let (v, ent) = split_entropy(case);
         let mut ent = Ent::new(ent);
         self_check(subj, v)?;
